@@ -19,6 +19,10 @@ NON_INTS = [lambda: "text", lambda: "", lambda: [], lambda: {}, lambda: 0.0, lam
 TICK = 1.0
 
 
+class GuardFired(BaseException):
+    """The harness ends an application that is still running after a very long virtual time."""
+
+
 def run_runner_case(case: dict[str, Any]) -> dict[str, Any]:
     import logging
 
@@ -72,8 +76,8 @@ def run_runner_case(case: dict[str, Any]) -> dict[str, Any]:
         # stopped by a signal, and says so
         await anyio.sleep(10.0 ** 6)
         log.append(["stoppedByGuard"])
-        signal.raise_signal(signal.SIGTERM)
-        await anyio.sleep_forever()
+        # (not by a signal: the application's handlers may be gone already, and the default action kills the process)
+        raise GuardFired()
 
     async def do_start(idx: int) -> None:
         comp = case["comps"][idx]
